@@ -120,7 +120,7 @@ def run(check, an: Analysis):
                 n_scale += 1
                 block = rules.atomic_block(path, index)
                 woke = any(is_call_to(e, '__awake_all__') and
-                           call_receiver(e) == 'self._congested' for e in block)
+                           rules.receiver_at(path, e) == 'self._congested' for e in block)
                 check.instance('K', 'scale-store:wakes-all@%d' % event.line, woke,
                                event.where,
                                'a changed scale wakes every transfer to re-plan',
